@@ -52,6 +52,8 @@ def facts(case, tname, flags):
         'regs': regs, 'nbc': nbc, 'bcval': bcval,
         'names': [1, flags.get('names', 1)],
         'pow': [1, flags.get('pow', 1)],
+        'lines': [[int(a[1]), int(a[2]), int(a[4] if len(a) > 4 else a[2])]
+                  for a in case['assign']],
     }
 
 
@@ -302,6 +304,43 @@ def base_core(rng):
     flows = [scenarios.flow_for({'A': A, 'B': B}[n], 0.1) for n in names]
     return scenarios.make_core(rng, {'A': A, 'B': B}, lay, flows,
                                gap_model='flow', bypass_fraction=0.03), 'A'
+
+
+def base_core19(rng):
+    """Three rings (19 positions), two types, ring lines written as ranges
+    where neighbours share a type."""
+    OF = 0.060
+    A, B = fitted_type(2, OF), fitted_type(3, OF)
+    p19 = scenarios.layout_positions(19)
+    names = ['B'] + ['A'] * 6 + ['A', 'B'] * 6
+    lay = [(r_, p_, names[i]) for i, (r_, p_) in enumerate(p19)]
+    flows = [scenarios.flow_for({'A': A, 'B': B}[n], 0.1) for n in names]
+    return scenarios.make_core(rng, {'A': A, 'B': B}, lay, flows,
+                               gap_model='no_flow', bypass_fraction=0.0,
+                               ncell=1, power_order=0), 'A'
+
+
+def ring_faults(rng):
+    """Assignment lines of a 19-position core that run past the end of
+    their ring (or start before it), and the valid core itself."""
+    out = []
+    for k, (ring, lo, hi) in enumerate(
+            [(2, 1, 7), (2, 6, 8), (2, 5, 12), (3, 12, 13), (3, 1, 18),
+             (2, 0, 3)]):
+        # (a line for ring 1 that names positions 1..2 is accepted and the
+        # excess ignored - harmless, not generated; DESIGN.md 11.7)
+        c, tn = base_core19(random.Random(rng.randrange(1 << 30)))
+        # the line replaces the lines of that ring from `lo` on
+        a0 = next(a for a in c['assign'] if a[1] == ring)
+        keep = [a for a in c['assign']
+                if not (a[1] == ring and a[2] >= max(lo, 1))]
+        keep.append((a0[0], ring, lo, dict(a0[3]), hi))
+        c['assign'] = keep
+        out.append((f'line-r{ring}-{lo}-{hi}#{k}', c, tn,
+                    ['PositionOutsideRing'], {}, None))
+    c, tn = base_core19(random.Random(rng.randrange(1 << 30)))
+    out.append(('valid#0', c, tn, [], {}, None))
+    return out
 
 
 def base_lowfirst(rng):
